@@ -446,6 +446,18 @@ def findall_ (m : Mode) (l t : Bits) (a b : Nat) (count : Option Nat) (ba : Bool
   | .msb0 => .ok (findallMsb0 l t a b count ba)
   | .lsb0 => findallLsb0 (chunkIncrement t) l t a b count ba
 
+/-- inner loop of the repaired scan: the alignment filter comes first, only yielded positions are counted. -/
+def drainFoundFixed (n tl : Nat) (count : Option Nat) (ba : Bool) : List Nat → Nat → List Nat × Nat × Bool
+  | [], c => ([], c, false)
+  | p :: rest, c =>
+    let q := n - p - tl
+    if ¬ ba ∨ q % 8 = 0 then
+      if (match count with | none => false | some k => c ≥ k) then ([], c, true)
+      else
+        let r := drainFoundFixed n tl count ba rest (c + 1)
+        (q :: r.1, r.2.1, r.2.2)
+    else drainFoundFixed n tl count ba rest c
+
 /-- The proposed repair of the chunk loop (notes/fix_C12_findall-chunks.diff): every window ends where the
     previous one began plus `len(bs) - 1`, and the window at `msb0_start` is always searched. -/
 def findallLsb0FixedLoop (inc : Nat) (l t : Bits) (s0 : Nat) (count : Option Nat) (ba : Bool) :
@@ -454,7 +466,7 @@ def findallLsb0FixedLoop (inc : Nat) (l t : Bits) (s0 : Nat) (count : Option Nat
   | fuel + 1, hi, c =>
     let pos := max s0 (hi - (inc + t.length))
     let found := findallMsb0 l t pos hi none false
-    let r := drainFound l.length t.length count ba found.reverse c
+    let r := drainFoundFixed l.length t.length count ba found.reverse c
     if r.2.2 then r.1 else
     if pos = s0 then r.1 else r.1 ++ findallLsb0FixedLoop inc l t s0 count ba fuel (pos + t.length - 1) r.2.1
 
